@@ -207,6 +207,17 @@ CHECKS["C04"] = {
     ],
 }
 
+CHECKS["C11"] = {
+    "harness": "c11",
+    "level": "exploration",
+    "floor": {"quick": 300, "thorough": 1000},
+    "timeout": {"quick": 1500, "thorough": 7200},
+    "assumptions": [
+        "bytes of a model under observation are taken by raw-saving a fresh copy of it (saving is C02's subject)",
+        "self-assignment is outside the statement and not generated",
+    ],
+}
+
 for _pid, _floor in (("C18", 1000), ("C19", 1000), ("C20", 1000)):
     CHECKS[_pid] = {
         "harness": _pid.lower(),
